@@ -158,6 +158,8 @@ class FreeCheck:
 
 
 def role_c05(msg):
+    if 'step budget' in msg:
+        return 'no-progress'
     if 'unwrap' in msg and 'execute_command' in msg:
         return 'unwrap-of-response-write-in-generated-dispatcher'
     m = msg.split(' in ')[-1] if ' in ' in msg else msg
